@@ -969,7 +969,10 @@ class Evaluator:
         if isinstance(tgt, ast.Attribute):
             tt = ast.Attribute(value=self.R(tgt.value, path), attr=self.mangle(tgt.attr), ctx=ast.Load())
         elif isinstance(tgt, ast.Subscript):
-            tt = ast.Subscript(value=self.R(tgt.value, path), slice=self.R(tgt.slice, path), ctx=ast.Load())
+            base = self.R(tgt.value, path)
+            if isinstance(base, (ast.Dict, ast.List, ast.Set, ast.ListComp, ast.DictComp, ast.SetComp)) and isinstance(tgt.value, ast.Name):
+                base = tgt.value      # a store into a container built by a display: name the container, not its initial value
+            tt = ast.Subscript(value=base, slice=self.R(tgt.slice, path), ctx=ast.Load())
         else:
             tt = tgt
         key = U(tt)
